@@ -10,7 +10,7 @@ from harness.props import gridlib as G
 from harness.props.c10 import coord_arrays, count_shared
 
 MAXLIVE = 7
-NONMUT = ('new', 'copy', 'scaled', 'shifted', 'reversed', 'rotated', 'protated', 'as', 'pshifted')
+NONMUT = ('new', 'copy', 'scaled', 'shifted', 'reversed', 'rotated', 'protated', 'as', 'pshifted', 'super', 'sub')
 FROM_IMPL = ('as', 'pshifted', 'pshift')     # results the rational model takes from the implementation (oracle-checked)
 TWO_PI = 2 * np.pi
 
@@ -91,9 +91,139 @@ def gen_pyth_spec(rng):
 
 
 def gen_history(rng, big):
-    if rng.random() < 0.12:
+    r = rng.random()
+    if r < 0.12:
         return gen_pyth_history(rng, big)
+    if r < 0.30:
+        return gen_identity_history(rng, big)
     return gen_history0(rng, big)
+
+
+def canon_polar(spec):
+    """radii positive, angles within (-pi, pi]: a polar grid in canonical form"""
+    if spec['kind'] == 'reg':
+        d, n, z = spec['data']
+        d[0] = abs(d[0]) + 0.125
+        z[0] = abs(z[0]) + 0.25
+        d[1] = min(abs(d[1]), 0.5) or 0.25
+        z[1] = max(min(z[1], 0.5), -3.0)
+        while z[1] + d[1] * (n[1] - 1) > 3.0:
+            d[1] /= 2
+    else:
+        spec['data'][0] = [abs(v) + 0.25 for v in spec['data'][0]]
+        spec['data'][1] = [max(min(v, 3.0), -3.0) for v in spec['data'][1]]
+
+
+SAMPLE_FORMS = ['pyint', 'pyfloat', 'list', 'float64', 'int64']
+IDENT_VECTOR_FORMS = G.VECTOR_FORMS + ['computed', 'intarr']
+
+
+def gen_identity_op(rng, sysm, ndim, kind):
+    """One non-mutating (or in-place) operation whose ARGUMENT is the identity of its group, in one of its
+    spellings.  Returns a list of ops (reversing twice takes two) with `i` to be filled in by the caller."""
+    c = ['scaled:s', 'scaled:v', 'copy', 'rev2', 'assame', 'scale:s', 'scaled:s', 'scaled:v']
+    if sysm == 'c':
+        c += ['shifted:s', 'shifted:v', 'shifted:s', 'shifted:v', 'shift:v']
+        if ndim >= 2:
+            c += ['rotated', 'rotated']
+    else:
+        c += ['protated', 'pshifted', 'protated']
+    if kind == 'reg':
+        c += ['super', 'sub', 'super']
+    o = str(rng.choice(c))
+    if o in ('scaled:s', 'scale:s'):
+        return [[o[:-2], None, ['s', 1.0, str(rng.choice(G.SCALAR_FORMS))]]]
+    if o == 'scaled:v':
+        if sysm == 'p':
+            return [['scaled', None, ['s', 1.0, str(rng.choice(['len1', 'list1', '0d', 'pyint']))]]]
+        return [['scaled', None, ['v', [1.0] * ndim, str(rng.choice(IDENT_VECTOR_FORMS))]]]
+    if o == 'shifted:s':
+        return [['shifted', None, ['s', float(rng.choice([0.0, 0.0, -0.0])), str(rng.choice(G.SCALAR_FORMS))]]]
+    if o in ('shifted:v', 'shift:v'):
+        z = [float(rng.choice([0.0, 0.0, 0.0, -0.0])) for _ in range(ndim)]
+        return [[o[:-2], None, ['v', z, str(rng.choice(IDENT_VECTOR_FORMS))]]]
+    if o == 'rotated':
+        r = {'c': '1', 's': '0', 'turns': int(rng.choice([0, 0, 1, -1, 2]))}
+        if ndim == 3:
+            ax = G.UNIT3[int(rng.integers(0, len(G.UNIT3)))]
+            r['axis'] = [G.fr(Fraction(a)) for a in ax]
+        return [['rotated', None, r]]
+    if o == 'protated':
+        return [['protated', None, {'c': '1', 's': '0'}]]
+    if o == 'pshifted':
+        return [['pshifted', None, ['v', [0.0, 0.0], str(rng.choice(IDENT_VECTOR_FORMS))]]]
+    if o in ('super', 'sub'):
+        return [[o, None, [1] * ndim, str(rng.choice(SAMPLE_FORMS))]]
+    if o == 'rev2':
+        return [['reversed', None], ['reversed', 'last']]
+    return [[o, None]]
+
+
+def gen_identity_history(rng, big):
+    """Identity arguments, every op and spelling: scale by 1 / 1.0 / [1, 1] / np.cos([0, 0]), shift by 0 / -0.0 /
+    zeros, rotation by 0 or whole turns, reversing twice, super/subsampling by 1, as_(own system), copy — each
+    followed by in-place edits of the result OR of the original.  The result must have the same points and
+    weights and be an independent object (never the source itself, never sharing an array with it)."""
+    spec = G.gen_spec(rng, maxn=5 if not big else 9)
+    if spec['sys'] == 'p':
+        canon_polar(spec)
+    if rng.random() < 0.3:
+        if spec['sys'] == 'c':
+            G.make_shared(rng, spec)
+        else:
+            spec['shared'] = True
+    ops = [['new', spec]]
+    meta = [[spec['sys'], spec_ndim(spec), spec['kind']]]
+
+    def add(new_ops, i):
+        for op in new_ops:
+            src = len(meta) - 1 if op[1] == 'last' else i
+            op[1] = src
+            ops.append(op)
+            sysm, ndim, kind = meta[src]
+            if op[0] in ('rotated', 'pshifted'):
+                meta.append(['c', ndim, 'uns'])
+            elif op[0] in NONMUT:
+                meta.append([sysm, ndim, kind])
+            elif op[0] in ('rotate', 'pshift'):
+                meta[src][2] = 'uns'
+                if op[0] == 'rotate':
+                    meta[src][0] = 'c'
+
+    for _ in range(int(rng.integers(1, 4))):
+        if len(meta) >= MAXLIVE - 2:
+            break
+        i = int(rng.integers(0, len(meta)))
+        idop = gen_identity_op(rng, *meta[i])
+        twice = [list(o) for o in idop] if (rng.random() < 0.3 and len(meta) + 2 * len(idop) <= MAXLIVE) else None
+        add(idop, i)
+        if twice is not None:
+            add(twice, i)       # the same identity call again: a memoised result would come back
+        # the edit that exposes a result that is not independent: in place, on the result or on the original
+        for _ in range(int(rng.integers(1, 3))):
+            j = int(rng.choice([i, len(meta) - 1, int(rng.integers(0, len(meta)))]))
+            sysm, ndim, kind = meta[j]
+            if sysm == 'p':
+                e = str(rng.choice(['scale', 'reverse', 'protate', 'pshift', 'mat']))
+            else:
+                e = str(rng.choice(['scale', 'shift', 'reverse', 'scale', 'shift', 'mat'] + (['rotate'] if ndim >= 2 else [])))
+            if e == 'scale':
+                a = gen_scale_arg(rng, ndim, sysm == 'p')
+                if a[0] == 's' and a[1] == 1.0:
+                    a[1] = 2.0
+                add([[e, None, a]], j)
+            elif e == 'shift':
+                add([[e, None, ['v', [float(rng.choice([0.5, -1.0, 2.0, 0.125])) for _ in range(ndim)], 'float64']]], j)
+            elif e == 'rotate':
+                add([[e, None, gen_rot(rng, ndim)]], j)
+            elif e == 'protate':
+                cc, ss = G.gen_angle(rng)
+                add([[e, None, {'c': G.fr(cc), 's': G.fr(ss)}]], j)
+            elif e == 'pshift':
+                add([[e, None, ['v', [0.5, -1.0], 'float64']]], j)
+            else:
+                add([[e, None]], j)
+    return {'family': 'history', 'ops': ops, 'identity': True}
 
 
 def gen_pyth_history(rng, big):
@@ -130,18 +260,7 @@ def gen_history0(rng, big):
     maxn = 6 if not big else int(rng.choice([6, 12, 30]))
     spec = G.gen_spec(rng, maxn=maxn)
     if spec['sys'] == 'p':
-        # radii positive, angles within (-pi, pi]: a polar grid in canonical form
-        if spec['kind'] == 'reg':
-            d, n, z = spec['data']
-            d[0] = abs(d[0]) + 0.125
-            z[0] = abs(z[0]) + 0.25
-            d[1] = min(abs(d[1]), 0.5) or 0.25
-            z[1] = max(min(z[1], 0.5), -3.0)
-            while z[1] + d[1] * (n[1] - 1) > 3.0:
-                d[1] /= 2
-        else:
-            spec['data'][0] = [abs(v) + 0.25 for v in spec['data'][0]]
-            spec['data'][1] = [max(min(v, 3.0), -3.0) for v in spec['data'][1]]
+        canon_polar(spec)
     shared = bool(rng.random() < 0.4)        # constructor inputs alias each other / are reused for a second grid
     if shared and spec['sys'] == 'c':
         G.make_shared(rng, spec)
@@ -209,7 +328,21 @@ def gen_history0(rng, big):
 # the real code: histories
 
 def angle_of(r):
-    return math.atan2(float(Fraction(r['s'])), float(Fraction(r['c'])))
+    # `turns`: whole turns added to the angle (rotation by 2*pi*n: the identity map, spelled differently)
+    return math.atan2(float(Fraction(r['s'])), float(Fraction(r['c']))) + TWO_PI * r.get('turns', 0)
+
+
+def sample_arg(k, form):
+    """the factor argument of make_supersampled_grid / make_subsampled_grid in one of its spellings"""
+    if form == 'pyint' and len(set(k)) == 1:
+        return int(k[0])
+    if form == 'pyfloat' and len(set(k)) == 1:
+        return float(k[0])
+    if form == 'list':
+        return [int(v) for v in k]
+    if form == 'float64':
+        return np.array(k, dtype='float64')
+    return np.array([int(v) for v in k])
 
 
 def apply_real(grids, op, pool=None):
@@ -230,6 +363,14 @@ def apply_real(grids, op, pool=None):
                 grids[op[1]].shift(G.op_arg(op[2]))
             elif kind == 'copy':
                 grids.append(grids[op[1]].copy())
+            elif kind in ('super', 'sub'):
+                import hcipy
+                f = hcipy.make_supersampled_grid if kind == 'super' else hcipy.make_subsampled_grid
+                grids.append(f(grids[op[1]], sample_arg(op[2], op[3] if len(op) > 3 else 'int64')))
+            elif kind == 'assame':
+                src = grids[op[1]]
+                if src.as_(src._coordinate_system) is not src:
+                    return 'err:notself'
             elif kind == 'mat':
                 grids[op[1]].weights
             elif kind in ('scale', 'scaled'):
@@ -366,9 +507,11 @@ def run_history(case):
     pool = G.Pool()
     for op in case['ops']:
         before = observe(grids)
+        nbefore = len(grids)
         status = apply_real(grids, op, pool)
         ch = pool.changed()
         steps.append({'op': op, 'status': status, 'before': before, 'after': observe(grids),
+                      'same_obj': [k for k in range(nbefore) if len(grids) > nbefore and grids[-1] is grids[k]],
                       'shared': count_shared([a for g in grids for a in grid_arrays(g)] + list(pool.arrays)),
                       'refvals': [[[float(v) for v in np.asarray(a).ravel()] for a in grid_arrays(g)] for g in grids],
                       'caller_changed': [(list(pool.keys[k])[:6], pool.arrays[k].tolist()[:6]) for k in ch]})
@@ -387,6 +530,10 @@ def model_history_lines(case):
             lines.append(G.new_lines('C11', op[1], mpool))
         elif kind in ('copy', 'mat', 'reverse', 'reversed'):
             lines.append('C11 %s %d' % (kind, op[1]))
+        elif kind in ('super', 'sub'):
+            lines.append('C11 %s %d [%s]' % (kind, op[1], ','.join(str(int(v)) for v in op[2])))
+        elif kind == 'assame':
+            lines.append('C11 same %d' % op[1])
         elif kind in ('scale', 'scaled'):
             a = op[2]
             lines.append('C11 %s %d %s' % (kind, op[1], ('s:' + rat(a[1])) if a[0] == 's' else ('v:' + rat_list(a[1]))))
@@ -454,6 +601,59 @@ def compare_conv(ans, st):
     return None, (exact, skipped)
 
 
+def pshift_queries(st):
+    """The executed composite of `PolarGrid.shift(ed)` (Model/Grid.lean `pshiftedPts` / `pshiftPts`) on the source grid's
+    current value: the shifted Cartesian points, and for the in-place form also the polar points `[r, cos, sin]`."""
+    op = st['op']
+    src = st['before'][op[1]]
+    if src['sys'] != 'p' or src['points'].shape[1] != 2:
+        return []
+    th = src['points'][:, 1]
+    args = '%d %s %s %s' % (op[1], rat_list([float(v) for v in np.cos(th)]), rat_list([float(v) for v in np.sin(th)]),
+                            rat_list([float(v) for v in op[2][1]]))
+    return ['C11 pshifted ' + args] + (['C11 pshift ' + args] if op[0] == 'pshift' else [])
+
+
+def compare_pshift(answers, st):
+    """None or the first difference between the composed model and what PolarGrid.shift(ed) returned; (exact, skipped)."""
+    op = st['op']
+    new = st['after'][-1] if op[0] == 'pshifted' else st['after'][op[1]]
+    real = new['points']
+    cart = real if new['sys'] == 'c' else (polar_to_cart(real) if len(real) else real)
+    if not answers[0].startswith('ok'):
+        return 'model answered %r' % answers[0], (0, 0)
+    body = answers[0].split(' ', 1)[1] if ' ' in answers[0] else '-'
+    mp = parse_rat_lists(body)
+    if len(mp) != len(cart):
+        return 'number of points %d vs %d' % (len(mp), len(cart)), (0, 0)
+    if len(mp):
+        M = np.array([[float(x) for x in q] for q in mp], dtype=float).reshape(len(mp), 2)
+        if not close_arr(cart, M):
+            k = int(np.argmax(np.max(np.abs(cart - M), axis=1)))
+            return 'shifted Cartesian point %d: %r vs model %r' % (k, cart[k].tolist(), M[k].tolist()), (0, 0)
+    exact = skipped = 0
+    if len(answers) > 1:
+        if not answers[1].startswith('ok'):
+            return 'model answered %r' % answers[1], (0, 0)
+        body = answers[1].split(' ', 1)[1] if ' ' in answers[1] else '-'
+        pp = parse_rat_lists(body)
+        if len(pp) != len(real):
+            return 'number of polar points %d vs %d' % (len(pp), len(real)), (0, 0)
+        for k, (m, r) in enumerate(zip(pp, real)):
+            if len(m) == 0:
+                skipped += 1
+                continue
+            exact += 1
+            rr, c, s_ = [float(x) for x in m]
+            if abs(r[0] - rr) > G.TOL * max(1.0, rr):
+                return 'polar point %d: radius %r vs %r' % (k, float(r[0]), rr), (exact, skipped)
+            if rr > 0:
+                d = (float(r[1]) - math.atan2(s_, c) + math.pi) % (2 * math.pi) - math.pi
+                if abs(d) > 1e-7:
+                    return 'polar point %d: angle %r vs direction (%r, %r)' % (k, float(r[1]), c, s_), (exact, skipped)
+    return None, (exact, skipped)
+
+
 def impl_line(st):
     """The model request that enters the implementation's result of a coordinate-system conversion
     (or of a polar shift, which goes through one) into the store."""
@@ -511,6 +711,8 @@ def oracle_history(steps):
                 allowed = True          # documented: a one-dimensional grid cannot be rotated
             if name in ('scale', 'scaled', 'mat') and src['sys'] == 'c' and src['kind'] == 'sep' and src['w'] is None and src['getw'][0] == 'err':
                 allowed = True          # automatic weights undefined (axis with fewer than two points)
+            if name in ('super', 'sub') and ((src['kind'] == 'sep' and status == 'err:notimpl') or (src['kind'] == 'uns' and status == 'err:value')):
+                allowed = True          # documented: only regular grids can be resampled
             if not allowed and src is None:
                 bad.append(('new-raises', 'constructing (or reading the points of) a %s %s grid with argument forms %r raised %s' % (
                     op[1]['sys'], op[1]['kind'], op[1].get('forms'), status[4:])))
@@ -520,8 +722,16 @@ def oracle_history(steps):
             if len(after) != len(before) or any(not same_snap(a, b) for a, b in zip(after, before)):
                 bad.append(('failed-op-side-effect', 'a failed %s changed a live grid' % name))
             continue
+        if name == 'assame':
+            if len(after) != len(before) or any(not same_snap(a, b) for a, b in zip(after, before)):
+                bad.append(('alias assame', 'as_(own system) changed a live grid'))
+            continue
         tgt = len(after) - 1 if name in NONMUT else op[1]
         new = after[tgt]
+        if st.get('same_obj'):
+            # "the non-mutating forms return independent copies": whatever the argument — also for the identity
+            bad.append(('alias %s returns-existing-object' % name, '%s%s returned grid %d itself instead of a new grid' % (
+                name, arg_form(op), st['same_obj'][0])))
         # untouched grids
         for k in range(len(before)):
             if name not in NONMUT and k == tgt:
@@ -552,6 +762,26 @@ def oracle_history(steps):
             wantP, wantW = P + factors(op[2], ndim)[None, :], W
         elif name in ('reverse', 'reversed'):
             wantP, wantW = P[::-1], (W[::-1] if W is not None else None)
+        elif name in ('super', 'sub'):
+            # from the definition: every cell is cut into k equal sub-cells (super) / k consecutive cells are merged (sub);
+            # the samples sit at the cell centres
+            if src['kind'] != 'reg':
+                bad.append(('op-accepts %s' % name, '%s%s of a %s grid did not raise (only regular grids can be resampled)' % (name, arg_form(op), src['kind'])))
+                continue
+            d, n, z = src['data']
+            axes = []
+            for dd, nn, zz, k in zip(d, n, z, op[2]):
+                if name == 'super':
+                    axes.append([zz + j * dd - dd / 2 + (m + 0.5) * dd / k for j in range(nn) for m in range(k)])
+                else:
+                    axes.append([float(np.mean([zz + (j * k + m) * dd for m in range(k)])) for j in range(nn // k)])
+            mesh = np.meshgrid(*axes[::-1], indexing='ij')
+            wantP = np.stack([mm.ravel() for mm in mesh[::-1]], axis=1) if all(len(a) for a in axes) else np.zeros((0, len(axes)))
+            wantW = None
+            if new['kind'] != 'reg' or new['sys'] != src['sys']:
+                bad.append(('points %s' % name, '%s of a regular %s grid returned a %s %s grid' % (name, src['sys'], new['sys'], new['kind'])))
+            elif all(k == 1 for k in op[2]) and W is not None and src['w'] is None and new['wl'] is not None and not close_arr(new['wl'], W):
+                bad.append(('weights %s' % name, 'resampling by 1 changed the automatic weights'))
         elif name in ('rotate', 'rotated'):
             wantP, wantW = rot_points(P, op[2]), None
         elif name in ('protate', 'protated'):
@@ -607,14 +837,20 @@ def base(name):
             'pshifted': 'pshift'}.get(name, name)
 
 
+def is_sv(op):
+    return len(op) > 2 and isinstance(op[2], list) and len(op[2]) > 0 and op[2][0] in ('s', 'v')
+
+
 def arg_form(op):
-    if len(op) > 2 and isinstance(op[2], list):
+    if len(op) > 3 and not is_sv(op) and isinstance(op[2], list):
+        return '(factor %r as %s)' % (op[2], op[3])
+    if is_sv(op):
         return '(%s as %s)' % ('scalar' if op[2][0] == 's' else 'vector', op[2][2] if len(op[2]) > 2 else 'default')
     return ''
 
 
 def arg_class(op):
-    if len(op) > 2 and isinstance(op[2], list):
+    if is_sv(op):
         return '(scalar)' if op[2][0] == 's' else '(vector)'
     return ''
 
@@ -627,8 +863,33 @@ def same_snap(a, b):
 # constructors, sampling, polar conversion
 
 def gen_ctor(rng, big):
-    fam = str(rng.choice(['uniform', 'focal', 'focal', 'pupil', 'pupil', 'sample', 'sample', 'polar', 'pshift']))
+    fam = str(rng.choice(['uniform', 'focal', 'focal', 'pupil', 'pupil', 'sample', 'sample', 'polar', 'pshift', 'hex', 'focalfull']))
     maxn = 8 if not big else 24
+    if fam == 'hex':
+        c = None if rng.random() < 0.4 else [float(rng.choice([0.0, 0.5, -1.25, 3.0, 10.0])), float(rng.choice([0.0, 0.5, -1.25, 3.0]))]
+        return {'family': fam, 'd': float(rng.choice([1.0, 0.5, 2.0, 0.125, 3.0, 1.5])), 'rings': int(rng.integers(0, 5 if not big else 9)),
+                'pointy': bool(rng.random() < 0.5), 'center': c}
+    if fam == 'focalfull':
+        qs = [1.0, 2.0, 1.5, 3.0, 4.0, 2.5]
+        nas = [1.0, 2.0, 3.0, 0.5, 1.5, 2.5, 4.0]
+        q, na = float(rng.choice(qs)), float(rng.choice(nas))
+        while 2 * na * q < 1:
+            na *= 2
+        def opt(vals, p):
+            return float(rng.choice(vals)) if rng.random() < p else None
+        path = str(rng.choice(['sr', 'fnum', 'pdfl', 'none', 'mixed', 'mixed']))
+        kw = {'sr': None, 'fnum': None, 'pd': None, 'fl': None, 'wl': None}
+        if path == 'sr':
+            kw['sr'] = float(rng.choice([1.0, 0.5, 2.0, 0.015625]))
+            kw['wl'] = opt([1.0, 0.5], 0.3)
+        elif path == 'fnum':
+            kw['fnum'], kw['wl'] = float(rng.choice([10.0, 2.5, 40.0])), opt([1.0, 0.5, 0.000001], 0.8)
+        elif path == 'pdfl':
+            kw['pd'], kw['fl'], kw['wl'] = float(rng.choice([1.0, 0.5, 8.0])), float(rng.choice([1.0, 10.0, 2.5])), opt([1.0, 0.5], 0.8)
+        elif path == 'mixed':
+            kw = {'sr': opt([1.0, 0.5], 0.2), 'fnum': opt([10.0, 2.5], 0.3), 'pd': opt([1.0, 0.5, 8.0], 0.5), 'fl': opt([1.0, 10.0], 0.5),
+                  'wl': opt([1.0, 0.5], 0.5)}
+        return dict({'family': fam, 'q': q, 'na': na}, **kw)
     if fam == 'uniform':
         ndim = int(rng.choice([1, 2, 2, 3]))
         return {'family': fam, 'dims': [int(rng.integers(1, maxn + 1)) for _ in range(ndim)],
@@ -735,6 +996,10 @@ def check_ctor(case):
         elif fam == 'pupil':
             dims, diam, q, na, fl = case['dims'], case['diameter'], case['q'], case['na'], case['fl']
             pg = hcipy.make_pupil_grid(dims, diam)
+            Pp = G.points(pg)
+            if not close_arr(np.asarray(pg.delta, dtype=float) * np.asarray(dims, dtype=float), np.full(2, diam), diam) or \
+                    not close_arr(Pp.min(axis=0) + Pp.max(axis=0), np.zeros(2), max(1.0, diam)):
+                bad.append(('pupil-extent', 'make_pupil_grid(%r, %r) does not cover the diameter symmetrically about the origin on both axes' % (dims, diam)))
             g = hcipy.make_focal_grid_from_pupil_grid(pg, q, na, fl, 1)
             ok, d = has_origin(g) if g.size > 0 else (True, 0.0)
             if not ok:
@@ -749,7 +1014,9 @@ def check_ctor(case):
             qq = [Fraction(round_half_even(x), n) for x, n in zip(exactq, dims)]
             slack = [abs((Fraction(n) * Fraction(f) * qv) - round(Fraction(n) * Fraction(f) * qv)) for n, f, qv in zip(dims, fov, qq)]
             exact_fov = all(Fraction(f).denominator & (Fraction(f).denominator - 1) == 0 and Fraction(f).denominator <= 2 ** 20 for f in fov)
-            lines.append('C11 uniform %s %s %s 0' % ('[' + ','.join(map(str, dims)) + ']', rat_list([diam, diam]), rat_list([0.0, 0.0])))
+            lines.append('C11 pupil %s %s' % ('[' + ','.join(map(str, dims)) + ']', rat_list([diam, diam])))
+            lines.append('C11 show 0')
+            checks.append((len(lines) - 1, pg))
             lines.append('C11 fft 0 %s %s %s %s' % (rat(TWO_PI), rat_list([q, q]), rat_list(fov), rat_list([0.0, 0.0])))
             lines.append('C11 scaled 1 s:%s' % rat(fl * 1 / TWO_PI))
             lines.append('C11 show 2')
@@ -757,6 +1024,69 @@ def check_ctor(case):
                 checks.append((len(lines) - 1, g))
             else:
                 checks.append((len(lines) - 1, None))
+        elif fam == 'hex':
+            d, n, pointy, cen = case['d'], case['rings'], case['pointy'], case['center']
+            g = hcipy.make_hexagonal_grid(d, n, pointy, None if cen is None else np.array(cen))
+            P = G.points(g)
+            c0 = np.array(cen if cen is not None else [0.0, 0.0])
+            pitch = d          # (the parameter called circum_diameter is the distance between neighbouring centres)
+            if len(P) != 1 + 3 * n * (n + 1):
+                bad.append(('hex-count', 'make_hexagonal_grid with %d rings has %d points, expected %d' % (n, len(P), 1 + 3 * n * (n + 1))))
+            else:
+                D2 = np.sqrt(((P[:, None, :] - P[None, :, :]) ** 2).sum(axis=2)) + np.eye(len(P)) * 1e9
+                if n >= 1 and not np.all(np.abs(D2.min(axis=1) - pitch) <= 1e-9 * max(1.0, pitch)):
+                    bad.append(('hex-pitch', 'hexagon centres are not %r apart from their nearest neighbours' % pitch))
+                if n >= 1:
+                    # flat top: neighbours along y at distance `pitch`; pointy top: along x
+                    ax = 0 if pointy else 1
+                    if not np.any(np.all(np.abs(P - (P[0] + np.eye(2)[ax] * pitch)) <= 1e-9 * max(1.0, float(np.max(np.abs(P)))), axis=1)):
+                        bad.append(('hex-orientation', 'no neighbour of the central hexagon along the %s axis (pointy_top=%r)' % ('xy'[ax], pointy)))
+                # the centre: as the code has it, a flat-topped grid (pointy_top=False) is centred on (cy, cx) — the centre is added
+                # before the axes are exchanged.  Observed, outside the binding statement of C11 (proposed repair:
+                # pending_fixes/D86-hexagonal-grid-center.diff); judged here only as "the grid is centred on the centre the code
+                # documents up to that exchange", so that a regression of either orientation is still seen.
+                cc = c0 if pointy else c0[::-1]
+                if not close_arr(P.mean(axis=0), cc, max(1.0, float(np.max(np.abs(c0))))) or not close_arr(P[0], cc, max(1.0, float(np.max(np.abs(c0))))):
+                    bad.append(('hex-centre', 'make_hexagonal_grid(%r, %d, pointy_top=%r, center=%r) is centred on %r' % (d, n, pointy, cen, P.mean(axis=0).tolist())))
+            wl = G.weight_list(g)
+            if wl is None or len(wl) != len(P) or not np.all(wl > 0) or not close_arr(wl, np.full(len(P), wl[0]), wl[0]):
+                bad.append(('hex-weights', 'weights of a hexagonal grid are not one positive constant'))
+            want_show('C11 hex %s %s %d %d %s %s' % (rat(float(np.sqrt(3))), rat(d), n, 1 if pointy else 0, rat(c0[0]), rat(c0[1])), g)
+            lines.append('C11 hexqr %d' % n)
+            checks.append((len(lines) - 1, ('hexqr', n, d, pointy, P - P[0][None, :])))   # relative to the central hexagon
+        elif fam == 'focalfull':
+            q, na = case['q'], case['na']
+            kw = {}
+            names = {'sr': 'spatial_resolution', 'fnum': 'f_number', 'pd': 'pupil_diameter', 'fl': 'focal_length', 'wl': 'reference_wavelength'}
+            for k_, name in names.items():
+                if case[k_] is not None:
+                    kw[name] = case[k_]
+            try:
+                g = hcipy.make_focal_grid(q, na, **kw)
+                st = 'ok'
+            except Exception as e:  # noqa
+                g, st = None, 'err ' + G.errkind(e)
+            # the documented resolution, independently: given; else f_number * wavelength with f_number given or
+            # focal_length / pupil_diameter; else 1 if nothing was given; an incomplete set raises ValueError
+            if case['sr'] is not None:
+                want = case['sr']
+            else:
+                fn = case['fnum'] if case['fnum'] is not None else (case['fl'] / case['pd'] if case['pd'] is not None and case['fl'] is not None else None)
+                want = (1.0 if case['wl'] is None else 'err') if fn is None else ('err' if case['wl'] is None else fn * case['wl'])
+            if want == 'err' and g is not None:
+                bad.append(('focal-resolution incomplete', 'make_focal_grid(%r) accepted an incomplete set of arguments' % (kw,)))
+            elif want != 'err' and g is None:
+                bad.append(('focal-resolution raises', 'make_focal_grid(%r) raised %s' % (kw, st[4:])))
+            elif g is not None and not close_arr(np.asarray(g.delta, dtype=float), np.full(2, want / q), max(1.0, want / q)):
+                bad.append(('focal-resolution', 'make_focal_grid(q=%r, %r) has sample pitch %r, documented resolution/q = %r' % (q, kw, [float(v) for v in g.delta], want / q)))
+            lines.append('C11 focalfull %s %s %s' % (rat_list([q, q]), rat_list([na, na]), ' '.join('-' if case[k_] is None else rat(case[k_]) for k_ in ('sr', 'fnum', 'pd', 'fl', 'wl'))))
+            checks.append((len(lines) - 1, ('status', st)))
+            if g is not None:
+                ok, dd = has_origin(g)
+                if not ok:
+                    bad.append(('focal-origin make_focal_grid', 'make_focal_grid(q=%r, num_airy=%r, %r) has no point at the origin (nearest %.3g)' % (q, na, kw, dd)))
+                lines.append('C11 show 0')
+                checks.append((len(lines) - 1, g))
         elif fam == 'sample':
             spec, k = case['spec'], case['k']
             g = G.build(spec)
@@ -866,6 +1196,10 @@ DIRECTED = [
                                   ['pshift', 0, V10], ['as', 0], ['reversed', 0], ['as', 6]]},
     {'family': 'history', 'ops': [['new', S('c', 'uns', [[1.0, 0.0, -2.0], [0.0, 3.0, 1.0]], [1.0, 2.0, 3.0])], ['as', 0], ['as', 1], ['reverse', 1], ['as', 1], ['copy', 1], ['as', 4],
                                   ['scale', 0, ['s', 2.0, '0d']], ['as', 0]]},
+    # polar shift on points whose shifted image has a rational radius (the composed exact model is defined there)
+    {'family': 'history', 'ops': [['new', S('p', 'sep', [[3.0, 6.0, 0.0], [0.0]])], ['pshifted', 0, ['v', [0.0, 4.0], 'float64']], ['pshift', 0, ['v', [0.0, 4.0], 'float64']],
+                                  ['pshift', 0, ['v', [0.0, 0.0], 'float64']]]},
+    {'family': 'history', 'ops': [['new', S('p', 'uns', [[5.0, 1.0, 2.5], [0.0, 0.0, 0.0]])], ['pshift', 0, ['v', [-2.0, 4.0], 'list']], ['pshifted', 0, ['v', [0.0, 0.0], 'tuple']]]},
     # dtype / container of every argument
     {'family': 'history', 'ops': [['new', dict(S('c', 'reg', [[0.5, 0.5], [3, 2], [1.0, 1.0]]), forms={'dims': 'uint8', 'coord': '0d', 'outer': 'list'})],
                                   ['scaled', 0, ['s', 2.0, '0d']], ['scaled', 0, ['s', 2.0, 'len1']], ['scale', 0, ['s', 2.0, 'list1']], ['shift', 0, ['s', 1.0, '0d']],
@@ -909,6 +1243,14 @@ DIRECTED = [
     {'family': 'pupil', 'dims': [8, 8], 'diameter': 1.0, 'q': 2.0, 'na': 3.0, 'fl': 1.0},
     {'family': 'pupil', 'dims': [8, 4], 'diameter': 1.0, 'q': 1.5, 'na': 2.0, 'fl': 2.0},
     {'family': 'pupil', 'dims': [5, 5], 'diameter': 2.0, 'q': 3.0, 'na': None, 'fl': 1.0},
+    {'family': 'hex', 'd': 1.0, 'rings': 2, 'pointy': False, 'center': None},
+    {'family': 'hex', 'd': 0.5, 'rings': 1, 'pointy': True, 'center': [3.0, -1.25]},
+    {'family': 'hex', 'd': 2.0, 'rings': 0, 'pointy': False, 'center': [0.5, 0.5]},
+    {'family': 'focalfull', 'q': 2.0, 'na': 3.0, 'sr': None, 'fnum': 10.0, 'pd': None, 'fl': None, 'wl': 0.5},
+    {'family': 'focalfull', 'q': 2.0, 'na': 3.0, 'sr': None, 'fnum': None, 'pd': 0.5, 'fl': 10.0, 'wl': 1.0},
+    {'family': 'focalfull', 'q': 2.0, 'na': 3.0, 'sr': None, 'fnum': None, 'pd': None, 'fl': None, 'wl': None},
+    {'family': 'focalfull', 'q': 2.0, 'na': 3.0, 'sr': None, 'fnum': None, 'pd': None, 'fl': None, 'wl': 1.0},
+    {'family': 'focalfull', 'q': 2.0, 'na': 3.0, 'sr': None, 'fnum': 10.0, 'pd': None, 'fl': None, 'wl': None},
     {'family': 'uniform', 'dims': [4, 5], 'extent': [1.0, 2.5], 'center': [0.0, 0.5], 'hc': True},
     {'family': 'uniform', 'dims': [3], 'extent': [1.5], 'center': [-1.25], 'hc': False},
     {'family': 'sample', 'spec': S('c', 'reg', [[0.5, 1.0], [3, 2], [0.25, -0.5]]), 'k': [2, 2], 'scalar': True},
@@ -944,7 +1286,12 @@ def run(ctx):
                 '— whether or not they had been cached; every conversion equals the pointwise conversion of the CURRENT points; '
                 'other grids (earlier conversion results included) and the caller\'s arrays untouched. (b) constructors: make_uniform_grid, make_focal_grid, '
                 'make_focal_grid_from_pupil_grid (origin present; weights sum), supersample/subsample round trip and cell centring, '
-                'Cartesian->polar->Cartesian, polar shift. Model: `show`/`points` compared after every op. Non-trivial = at least '
+                'Cartesian->polar->Cartesian, polar shift, make_hexagonal_grid (count, pitch, orientation, centre, weights), make_focal_grid '
+                'with every combination of its optional arguments (documented resolution, refused sets), make_pupil_grid. (c) 18 % of the '
+                'histories are identity-argument histories: scale by 1 / shift by 0 / whole turns / resampling by 1 / as_(own system) / '
+                'reversed twice in every spelling, each followed by in-place edits of the result or the original; a non-mutating form '
+                'must never return an existing object. Every polar shift is also run through the composed model (pshifted/pshift). '
+                'Model: `show`/`points` compared after every op. Non-trivial = at least '
                 'one transformation applied or a constructor clause evaluated; distinct by (family, op sequence with argument '
                 'classes, kind, ndim) or constructor parameters.')
     ctx.assumptions += ['coordinates are finite floats; inputs dyadic so that most arithmetic is exact, outputs compared at 1e-9 relative',
@@ -952,7 +1299,7 @@ def run(ctx):
                         'automatic weights of a separated axis with fewer than two points are undefined (IndexError) — outside the quantifier',
                         'weights under rotation are not part of the statement (rotated() drops them, rotate() keeps the cached value): recorded, not judged',
                         'make_fft_grid float truncation is taken as given when the exact value is within 1e-6 of an integer and fov is inexact (boundary_skipped)']
-    n_hist = ctx.scale(1800, 8500)
+    n_hist = ctx.scale(1800, 7500)
     n_ctor = ctx.scale(1000, 5000)
     cases = list(DIRECTED)
     for k in range(n_hist):
@@ -983,12 +1330,18 @@ def run(ctx):
                     b = [op[2][1]] * nd if op[2][0] == 's' else op[2][1]
                     ml = 'C11 %s %d %s' % (op[0], op[1], rat_list(b))
                 conv = None
+                psh = None
                 if ml == 'IMPL':
                     if op[0] == 'as' and st['status'] == 'ok':
                         cq = conv_query(st)
                         if cq is not None:
                             conv = len(lines)
                             lines.append(cq)
+                    if op[0] in ('pshifted', 'pshift') and st['status'] == 'ok':
+                        pq = pshift_queries(st)
+                        if pq:
+                            psh = (len(lines), len(pq))
+                            lines += pq
                     ml = impl_line(st)
                 img = None
                 if op[0] in IMAGE_OF and st['status'] == 'ok' and isinstance(ml, str):
@@ -1000,7 +1353,7 @@ def run(ctx):
                     lines += ml
                 else:
                     lines.append(ml)
-                m = {'op': len(lines) - 1, 'impl': op[0] in FROM_IMPL, 'conv': conv, 'img': img}
+                m = {'op': len(lines) - 1, 'impl': op[0] in FROM_IMPL, 'conv': conv, 'img': img, 'psh': psh}
                 nlive = len(st['after'])
                 m['show'] = len(lines)
                 lines += ['C11 show %d' % k for k in range(nlive)]
@@ -1017,6 +1370,12 @@ def run(ctx):
                     ctx.count('aliased-constructor-inputs')
             if case.get('pyth'):
                 ctx.count('histories-pythagorean')
+            if case.get('identity'):
+                ctx.count('histories-identity-arguments')
+                for o in case['ops'][1:len(steps)]:
+                    if o[0] in NONMUT or o[0] == 'assame':
+                        ctx.count('identity:' + o[0] + (':' + str(o[2][2] if len(o[2]) > 2 else '') if len(o) > 2 and isinstance(o[2], list) and o[2] and o[2][0] in ('s', 'v') else
+                                                  ':' + str(o[3]) if len(o) > 3 else ':turns=%d' % o[2].get('turns', 0) if len(o) > 2 and isinstance(o[2], dict) else ''))
             ctx.count('grid:%s-%s-%dD' % (base_spec['sys'], base_spec['kind'], spec_ndim(base_spec)))
             ctx.count('weights:' + ('none' if base_spec['w'] is None else 'array' if isinstance(base_spec['w'], list) else 'scalar'))
             sig = ('history', tuple(o[0] + G_arg(o) for o in case['ops']), base_spec['sys'], base_spec['kind'], spec_ndim(base_spec))
@@ -1032,6 +1391,7 @@ def run(ctx):
                 ctx.violation(key, what, case)
             sig = (fam, G_json(case))
             ctx.case(case if len(ctx.samples) < 6 and fam in ('focal', 'pupil', 'sample') else None, nontrivial_key=sig)
+            ctx.count('ctor:' + fam)
             plan.append(('ctor', case, checks, len(all_lines), None))
             all_lines += lines
     out = ctx.model(all_lines)
@@ -1056,7 +1416,7 @@ def run(ctx):
         if kind == 'history':
             for st, m in zip(data, marks):
                 ans = out[base_i + m['op']]
-                mstatus = 'ok' if ans.startswith('ok') else 'err:' + ans.split(' ')[1]
+                mstatus = 'ok' if ans.startswith('ok') else 'err:' + (ans.split(' ') + ['refused'])[1]
                 ctx.traces_validated += 1
                 if m.get('impl') and st['status'] != 'ok':
                     break
@@ -1068,6 +1428,16 @@ def run(ctx):
                     ctx.traces_validated += 1
                     if d is not None:
                         dis(ctx, 'C11 as_ model', {'case': case, 'op': st['op'], 'diff': d, 'model': out[base_i + m['conv']][:300]})
+                        break
+                if m.get('psh') is not None:
+                    at, cnt = m['psh']
+                    d, (nex, nskip) = compare_pshift(out[base_i + at: base_i + at + cnt], st)
+                    ctx.count('pshift-model:' + st['op'][0])
+                    ctx.count('pshift-model:polar-points-compared', nex)
+                    ctx.count('pshift-model:polar-points-irrational-radius', nskip)
+                    ctx.traces_validated += 1
+                    if d is not None:
+                        dis(ctx, 'C11 pshift model', {'case': case, 'op': st['op'], 'diff': d})
                         break
                 if m.get('img') is not None:
                     op = st['op']
@@ -1106,6 +1476,23 @@ def run(ctx):
                 if g is None:
                     ctx.boundary_skipped += 1
                     continue
+                if isinstance(g, tuple) and g[0] == 'hexqr':
+                    # the axial coordinates the model enumerates, against the positions the code produced (centre removed)
+                    _, n_, d_, pointy_, rel = g
+                    try:
+                        qr = [tuple(int(v) for v in t.split(',')) for t in ans.split(' ', 1)[1].split(';')]
+                    except Exception:  # noqa
+                        qr = None
+                    ctx.count('hex:rings=%d' % n_)
+                    if qr is None or len(qr) != len(rel):
+                        dis(ctx, 'C11 hexqr', {'case': case, 'model': ans[:200]})
+                    else:
+                        xy = np.array([[(-q_ + r_) * d_ / 2, (q_ + r_) * d_ * np.sqrt(3) / 4 * 2] for q_, r_ in qr])
+                        if not pointy_:
+                            xy = xy[:, ::-1]
+                        if not close_arr(xy, rel, max(1.0, float(np.max(np.abs(rel))) if rel.size else 1.0)):
+                            dis(ctx, 'C11 hexqr', {'case': case, 'model': ans[:200], 'impl': rel.tolist()[:7]})
+                    continue
                 if isinstance(g, tuple):
                     if ans.split(' ')[0:2] != g[1].split(' ')[0:2] and not (ans.startswith('ok') and g[1] == 'ok'):
                         dis(ctx, 'C11 ctor status', {'case': case, 'impl': g[1], 'model': ans})
@@ -1117,7 +1504,7 @@ def run(ctx):
 
 
 def G_arg(op):
-    if len(op) > 2 and isinstance(op[2], list):
+    if is_sv(op):
         return ':' + op[2][0]
     if len(op) > 2 and isinstance(op[2], dict):
         return ':3d' if 'axis' in op[2] else ':2d'
